@@ -134,6 +134,14 @@ CHECKS["C18"] = (
     "DESIGN.md section 5 C18",
 )
 
+CHECKS["C15"] = (
+    "translation_validation",
+    "invariant at a hook: PythonASTOptimizer.visit is wrapped in the worker and every (before, after) module pair produced while the real compiler compiles basilisp.core, the bundled namespaces (from source, caching off), the generated program corpus and a targeted operator corpus is checked rewrite by rewrite against an independent canonicaliser of the allowed rewrites; generated programs and operator forms are also executed with the real optimizer and with a least-optimizing baseline (value, exception class, effect trace compared)",
+    "Held on ~7000 module pairs in quick (core + 12 library namespaces + generated programs + 2400 operator forms), of which ~4700 were actually changed by the optimizer and each validated; thorough adds all bundled namespaces and ~126000 generated programs. Translation validation of the executions produced, not a proof about the pass.",
+    "Trusted: vf/pyast_canon.py as the definition of the allowed rewrites; CPython's ast/compile; Name loads are effect free; location attributes ignored.",
+    "DESIGN.md section 5 C15",
+)
+
 NOT_BUILT ="check not built yet in this session (design in DESIGN.md section 5); not claimed until its monitor exists and is quiet on the unchanged tree"
 
 
